@@ -311,7 +311,7 @@ def _verify_variant(r, unit, cpath, ranges, vname, defines, bdir, tier):
     if r.obligations == 0:
         raise ToolError('zero obligations generated for %s/%s' % (unit.name, vname))
     if unit.loop_contracts:
-        nl = sum(len(c.loops) for c in unit.cuts.values())
+        nl = sum(len([l for l in c.loops if not getattr(l, 'optional', False)]) for c in unit.cuts.values())
         if nl and r.loop_steps < nl:
             raise ToolError('%s/%s: %d loop contracts declared but only %d loop_invariant_step '
                             'obligations generated (a loop contract was dropped)'
